@@ -662,6 +662,25 @@ func applyRef(v reflect.Value, t TypeSpec, base int, txt string) bool {
 		p := reflect.New(scalarType(t.K))
 		p.Elem().Set(r.Val)
 		v.Set(p)
+	case WPtrPtr:
+		r := RefScalar(t.K, base, txt)
+		if !r.HasVal {
+			return false
+		}
+		p := reflect.New(scalarType(t.K))
+		p.Elem().Set(r.Val)
+		pp := reflect.New(p.Type())
+		pp.Elem().Set(p)
+		v.Set(pp)
+	case WPtrSlice:
+		r := RefScalar(t.K, base, txt)
+		if !r.HasVal {
+			return false
+		}
+		if v.IsNil() {
+			v.Set(reflect.New(v.Type().Elem()))
+		}
+		v.Elem().Set(reflect.Append(v.Elem(), r.Val))
 	case WSlice:
 		r := RefScalar(t.K, base, txt)
 		if !r.HasVal {
